@@ -1024,6 +1024,8 @@ def judge_client_scenario(sc: ClientScenario) -> Optional[Tuple[str, str]]:
                             f'and ended with {got!r} instead of SFTPBadMessage')
                 continue
             own = own_answer(sc.kinds[c], sc.v, c, t, payload)
+            if sc.label.startswith('finish:') and sc.label != 'finish:valid' and got == 'sftp 5':
+                continue        # a crafted (truncated / extended / mutated) reply may be refused as a bad message
             if own is not None and got != own:
                 return ('client-caller-got-foreign-answer:' + sc.label,
                         f'caller {c} ({sc.kinds[c]}) should have received {own!r} but got {got!r}; '
